@@ -1077,10 +1077,12 @@ func (p *Printer) expr(t *Term) string {
 func BuildQuery(assume []*Term, goal *Term, getValues []*Term) string {
 	p := NewPrinter()
 	var asserts []string
+	seenA := map[*Term]bool{}
 	for _, a := range assume {
-		if a.IsTrue() {
+		if a.IsTrue() || seenA[a] {
 			continue
 		}
+		seenA[a] = true
 		asserts = append(asserts, p.expr(a))
 	}
 	g := p.expr(Not(goal))
